@@ -121,3 +121,24 @@ func TestC06OddDeviceKeys(t *testing.T) {
 			return out, nil
 		}}, cases)
 }
+
+// TestC06LabelGrid: every signature-algorithm label against a well-formed PKCS#1 v1.5 signature of every hash.
+func TestC06LabelGrid(t *testing.T) {
+	var cases []Case
+	tbs := []byte("slot certificate body for the label grid")
+	for label := 0; label <= 20; label++ {
+		for _, h := range []string{"sha1", "sha256", "sha384", "sha512"} {
+			for form := 1; form <= 2; form++ {
+				cases = append(cases, Case{DevKey: "rsa2048d", Issuer: "rootA", Validity: "ok", Pool: []string{"rootA"}, Algo: label, EMHash: h, TBS: tbs, SlotDates: "zero",
+					Form: form, Kind: map[int]string{1: "form1", 2: "form2"}[form]})
+			}
+		}
+	}
+	vh.Enumerate(t, vh.Spec[Case]{Property: "C06", Name: "TestC06LabelGrid", Exhaustive: true,
+		Rule: "a valid chain and a well-formed PKCS#1 v1.5 signature by the device key over the SHA-1 / SHA-256 / SHA-384 / SHA-512 digest of the body, in form 1 and form 2, under EVERY signature-algorithm label 0..20 (168 points). Same oracle as TestC06Attest: accepted exactly under the *WithRSA label of that hash (DSA / ECDSA labels of that hash: either verdict); every other label - MD2 / MD5, the RSASSA-PSS labels, Ed25519, unknown ones - is refused",
+		Exec: func(c Case) (vh.Outcome, error) {
+			o, err := exec(c)
+			o.NonTrivial = true
+			return o, err
+		}}, cases)
+}
